@@ -28,6 +28,8 @@ Commands
 * `c15.cmp <tolData> <tolUnits> | <A> | <B>` → `ok | diff:fields`
 * `c15.addunits <class> <property> <tol> | <units> | <raw value> | <reported quantity in base units, x,y,z or ->` →
   `power=<d from the generated decorator sites> model=<raw × units^d per axis (metres^d)> ok=<1|0|na>` (`addUnitsB`)
+* `c15.voxvol <tol> <nnz> <power of length of the reported quantity> | <units> | <reported volume in base units>` →
+  `model=<nnz × product of the voxel sizes of the axes the source multiplies> ok=<1|0>` (`voxelVolumeB`)
 * `c15.hist <tolData> <tolUnits> <scalar01> | <in> | <par rows, comma> | <step> <step> … | <out> | <keys> | <views>` →
   `model=<neuron or ERR> corr=… caches=<ok|diff:model-keys> views=<ok|diff:names|na> phys=<1|0|na>`
   (`step`: `w:a,b,…` — the cached attributes present after a warming step (absent ones are computed from the current
@@ -424,6 +426,12 @@ def run (cmd rest : String) : Option String :=
           | some qv => b01 (addUnitsB t d u raw qv)
           | none => "bad"
         pure s!"power={d} model={showV3 m} ok={ok}"
+    | _ => none
+  | "voxvol", [hd, u, q] =>
+    match words hd with
+    | [t, nnz, dim] => do
+      let t ← parseTol t; let nnz ← nnz.toNat?; let dim ← dim.toNat?; let u ← parseUnits u; let q ← parseRat q
+      pure s!"model={showRat (voxelVolume u nnz)} ok={b01 (voxelVolumeB t u nnz dim q)}"
     | _ => none
   | "round", [q] => do
     let q ← parseRat q
